@@ -162,7 +162,7 @@ def build_history(rng, srv, spool, tier):
     conn = 0
     # in one history out of eight the time the daemon loses is not a stall of the process but a step of the wall clock
     # (settimeofday, resume from suspend): the monotonic clock does not move, libev notices the jump and re-arms its timers
-    steps = False and rng.random() < 0.125
+    steps = rng.random() < 0.125
     for (te, kind, pl) in timeline:
         # let time pass up to the event, sometimes with the daemon held up
         while t < te:
@@ -308,6 +308,11 @@ def run_history(root, srv, part, rng, tier):
             part.count("histories_with_wall_clock_steps")
         for k, d in fails:
             if meta.get("clock_steps"):
+                if k == "run-late":
+                    # how soon libev learns of a step depends on its timerfd, which the harness does not provide:
+                    # lateness after a step is not judged, that every occurrence is served (once) is
+                    part.count("late_runs_after_a_clock_step_not_judged")
+                    continue
                 k = "clock-step/" + k
             part.violation(k, {"input": sc.text(), "detail": d, "meta": meta, "incs": sched.incs_to_json(incs), "t_end": t_end,
                                "summary": "%s (history: %d tasks over %ds, %d stalls)" % (d, meta["ntasks"], meta["span"], meta["stalls"])})
